@@ -1,17 +1,167 @@
 # C16 - Queries are isolated: consecutive and thread-interleaved runs do not interfere.
-# Model: Isolation.v (two step machines over disjoint state + read-only global; histories); theorems: Props/C16.v.
-# The theorem is about the model's state partition; that the partition is the code's is what this run tests (partial):
-# every interleaving / sequence result is compared with the SOLO result of the engine model.
+# Theorems: Props/C16.v
+#   * C16_interleaving / C16_history (Isolation.v): two abstract step machines whose states are disjoint by assumption;
+#   * C16_ir_interleaving / C16_ir_history / C16_ir_solo_store (Shared.v): the same over an IR in which the partition is CHECKED:
+#     `isolated off p e` = the transitive shared write set of entry point e is empty.  The IR TERM of the Python implementation is
+#     REGENERATED FROM THE SOURCE on every run by harness/translate_shared.py into build/gen/shared_<pid>/SharedFacts.v with the
+#     obligations gen_shared_isolated(_<entry>) and the instantiated corollaries gen_shared_noninterference / gen_shared_history /
+#     gen_shared_store_unchanged; shared_step() below compiles that file and checks every Print Assumptions.
+#     A refused translation, an obligation that evaluates to false or a coqc error is a violation: the dynamic exploration below
+#     (schedules, histories) runs first as the SEARCH for a concrete failing input; only if it finds none the violation is reported
+#     as no-failing-input-found with the broken obligation and the cells / sites in the replay file.
+#   * runtime cross-check of the translator: harness/impl/sharedmon.py snapshots every shared cell of the loaded rbql modules
+#     around every executed case; a cell that changed and is not in the translator's write set = "translator unsound here".
+# The dynamic part: every interleaving / sequence result is compared with the SOLO result of the engine model.
 import importlib
 import itertools
 import json
+import os
 import re
+import shutil
+import threading
+import time
 import lib
 import qmodel
 import qgen
 import enginecheck as ec
 
 THEOREM = 'C16_interleaving / C16_history (Props/C16.v): each query in an interleaving or a history yields its solo result (solo result = engine model run)'
+
+
+IR_THEOREM = ('C16_ir_interleaving / C16_ir_history (Props/C16.v) instantiated by the obligations generated from the implementation source '
+              '(harness/translate_shared.py): gen_shared_isolated, gen_shared_noninterference, gen_shared_history')
+
+
+def shared_step(ctx, keep=False):
+    """translate the implementation to the shared-state IR, compile the generated file; -> dict(ok, failed, detail, dir, theorems, facts)"""
+    d = os.path.join(lib.BUILD, 'gen', 'shared_%d' % os.getpid())
+    shutil.rmtree(d, ignore_errors=True)
+    os.makedirs(d)
+    res = {'ok': False, 'failed': [], 'detail': '', 'dir': d, 'theorems': [], 'facts': None, 'stage': 'translate'}
+    t0 = time.time()
+    env = dict(os.environ)
+    env['VERIF_REPO'] = lib.REPO
+    env['PYTHONDONTWRITEBYTECODE'] = '1'
+    try:
+        rc, out = lib.sh(['timeout', '120', 'python3', os.path.join(lib.VERIF, 'harness', 'translate_shared.py'), d], env=env, timeout=150)
+    except Exception as e:                                   # noqa: BLE001
+        rc, out = 99, 'translator did not finish: %r' % e
+    res['translate_s'] = round(time.time() - t0, 2)
+    ctx.generated_checker = ('python3 harness/translate_shared.py build/gen/shared_<pid> (VERIF_REPO); coqc -Q coq/theories RBQL -Q build/gen/shared_<pid> RBQLGen '
+                             'build/gen/shared_<pid>/SharedFacts.v (every run; Eval values and Print Assumptions parsed)')
+    if rc != 0:
+        res['failed'] = ['translate_shared']
+        res['detail'] = 'the translator refused the implementation source (rc=%d): %s' % (rc, out.strip()[-1200:])
+        for n in ('gen_shared_isolated', 'gen_shared_noninterference', 'gen_shared_history'):
+            ctx.generated_obligations[n] = False
+        return res
+    facts = json.load(open(os.path.join(d, 'SharedFacts.json')))
+    res['facts'] = facts
+    res['stage'] = 'coqc'
+    t1 = time.time()
+    cmd = 'cd %s && ulimit -s unlimited; timeout 300 coqc -Q %s RBQL -Q %s RBQLGen %s 2>&1' % (d, os.path.join(lib.COQ, 'theories'), d, os.path.join(d, 'SharedFacts.v'))
+    try:
+        rc, out = lib.sh(['bash', '-c', cmd], timeout=330)
+    except Exception as e:                                   # noqa: BLE001
+        rc, out = 99, 'coqc did not finish: %r' % e
+    res['coqc_s'] = round(time.time() - t1, 2)
+    vals = re.findall(r'= (true|false)\s*\n\s*: bool', out)
+    names = facts['obligations']
+    if len(vals) == len(names):
+        res['failed'] = [n for n, v in zip(names, vals) if v != 'true']
+    blocks = [b for b in re.split(r'(?=Closed under the global context|Axioms:)', out) if b.startswith('Closed under') or b.startswith('Axioms:')]
+    thms = facts['theorems']
+    closed = {}
+    if rc == 0 and len(blocks) == len(thms):
+        for n, b in zip(thms, blocks):
+            closed[n] = b.startswith('Closed under')
+    res['theorems'] = thms
+    for n in thms:
+        ctx.generated_obligations[n] = bool(closed.get(n, False)) and n not in res['failed']
+    if rc != 0 or len(vals) != len(names) or len(blocks) != len(thms) or not all(closed.get(n) for n in thms) or res['failed']:
+        if not res['failed']:
+            res['failed'] = ['SharedFacts.v'] if rc != 0 else [n for n in thms if not closed.get(n)] or ['SharedFacts.v']
+        ws = facts.get('write_set_all_entries') or {}
+        bad_entries = [e['name'] for e in facts.get('entries', []) if e['write_set'] and e.get('named')]
+        tail = '\n'.join(l for l in out.split('\n') if l.strip() and not l.startswith('Closed under') and not re.match(r'\s*(= (true|false)|: bool)\s*$', l))
+        res['detail'] = ('obligations that evaluate to false: %s; shared cells written on a query path: %s; entry points affected: %s; coqc rc=%d: %s' % (
+            ', '.join(res['failed']), '; '.join('%s <- %s' % (k, v[0]) for k, v in ws.items()) or 'none reported', ', '.join(bad_entries) or '-', rc, tail.strip()[-400:]))
+        return res
+    res['ok'] = True
+    if not keep:
+        shutil.rmtree(d, ignore_errors=True)
+    return res
+
+
+def covered(name, write_set):
+    """is the runtime cell `name` (harness/impl/sharedmon.py naming) inside a cell of the translator's write set?"""
+    for w in write_set:
+        if name == w or name.startswith(w + '.'):
+            return True
+        if w.endswith('.__dict__') and name.split('.')[0] == w.split('.')[0]:
+            return True
+    return False
+
+
+class SharedMonitor(object):
+    """collects the per-case snapshots' verdicts; report() compares them with the translator's write set"""
+    def __init__(self):
+        self.changed = {}            # cell -> first case in which it changed
+        self.monitored = 0
+        self.cases = 0
+
+    def feed(self, cases, got):
+        for c, g in zip(cases, got):
+            sh = g.get('shared') if isinstance(g, dict) else None
+            if not sh:
+                continue
+            self.cases += 1
+            self.monitored = max(self.monitored, sh.get('monitored', 0))
+            for name in sh.get('changed', []):
+                self.changed.setdefault(name, c)
+
+    def report(self, ctx, shared):
+        ctx.stat('shared_cells_monitored_at_runtime', self.monitored)
+        ctx.stat('cases_between_two_snapshots', self.cases)
+        ctx.stat('shared_cells_seen_changing', len(self.changed))
+        facts = shared.get('facts') or {}
+        ws = list((facts.get('write_set_all_entries') or {}).keys())
+        if shared.get('facts') is None:
+            return sorted(self.changed)
+        for name, case in sorted(self.changed.items()):
+            if not covered(name, ws):
+                small = {k: v for k, v in case.items() if k != '_solo'}
+                ctx.violation(dict(small, shared_cell_changed=name), None, {'changed': name}, IR_THEOREM,
+                              'translator unsound here: shared cell %s changed while this case ran, but the write sets computed by harness/translate_shared.py '
+                              'for the entry points do not contain it (write sets: %s)' % (name, ws or 'empty'), no_input=True)
+        return sorted(self.changed)
+
+
+def report_shared(ctx, shared, found_concrete, seen_changing=()):
+    facts = shared.get('facts') or {}
+    st = facts.get('stats') or {}
+    for k in ('cells', 'functions', 'classes', 'entries', 'read_effects', 'call_edges', 'write_effects', 'mutable_cells'):
+        if k in st:
+            ctx.stat('ir_' + k, st[k])
+    ctx.notes.append({'shared_translation': {'ok': shared['ok'], 'stage': shared['stage'], 'failed': shared['failed'], 'translate_s': shared.get('translate_s'),
+                                             'coqc_s': shared.get('coqc_s'), 'generated_theorems': shared['theorems'],
+                                             'flags_assumed_off': facts.get('flags_assumed_off'), 'write_set_all_entries': facts.get('write_set_all_entries'),
+                                             'writes_outside_entries': facts.get('writes_outside_entries'), 'generated_programs': facts.get('generated_programs'),
+                                             'assumed_external_calls': sorted((facts.get('externals') or {}).keys()),
+                                             'unknown_callees': sorted((facts.get('unknown_callees') or {}).keys()),
+                                             'cells_seen_changing_at_runtime': list(seen_changing)}})
+    if shared['ok']:
+        ctx.sample({'kind': 'generated obligation', 'theorem': 'gen_shared_isolated', 'entries': st.get('entries'), 'functions': st.get('functions'),
+                    'cells': st.get('cells'), 'flags_assumed_off': [f['cell'] for f in facts.get('flags_assumed_off', [])]})
+        return
+    if found_concrete:
+        ctx.notes.append('shared-state obligations broken (%s); a concrete failing input was found and reported above' % ', '.join(shared['failed']))
+        return
+    detail = shared['detail']
+    if seen_changing:
+        detail += '; observed at runtime (snapshots around the executed cases): %s changed' % ', '.join(seen_changing)
+    ctx.obligation_failed(shared['failed'], detail, IR_THEOREM, case={'shared_obligation': shared['failed'], 'generated_dir': shared['dir'], 'repo': lib.REPO,
+                                                                         'write_set': facts.get('write_set_all_entries')})
 
 
 def scenario(r, kind):
@@ -116,7 +266,7 @@ def csv_rel(c, e, g):
     return True
 
 
-def csv_sequences(ctx):
+def csv_sequences(ctx, mon=None):
     """histories through the CSV front-end: each run has its own directory with in.csv and a join file of the SAME relative name"""
     r = ctx.rng
     n = 40 if ctx.tier == 'quick' else 3000
@@ -142,6 +292,8 @@ def csv_sequences(ctx):
         cases.append({'mode': 'csvseq', 'runs': runs})
     exp = csv_expect(cases)
     got = lib.run_impl_py('c16', cases, extra_env={'VERIF_SCRATCH': lib.BUILD})
+    if mon is not None:
+        mon.feed(cases, got)
     ctx.compare(cases, exp, got, THEOREM + ' (CSV front-end histories)', rel=csv_rel,
                 describe=lambda c, e, g: 'query_csv history %s with per-run directories: solo model results %s, implementation %s' % (
                     [(q['q'], q['A'], q['B']) for q in c['runs']], json.dumps(e)[:400], json.dumps(g)[:400]),
@@ -172,6 +324,32 @@ def nsteps(o):
 
 
 def run(ctx):
+    # translation + compilation of the generated obligations runs beside the dynamic exploration (it only spawns processes)
+    box = {}
+
+    def bg():
+        try:
+            box['shared'] = shared_step(ctx)
+        except Exception as e:                               # noqa: BLE001
+            box['shared'] = {'ok': False, 'failed': ['shared_step'], 'detail': 'shared step raised %r' % e, 'dir': '', 'theorems': [], 'facts': None, 'stage': 'harness'}
+    th = threading.Thread(target=bg)
+    th.start()
+    nviol0 = len(ctx.violations)
+    mon = SharedMonitor()
+    failure = None
+    try:
+        run_dynamic(ctx, mon)
+    except lib.CheckFailure as e:
+        failure = e                  # e.g. a driver that does not terminate: still report the obligations, then re-raise
+    th.join()
+    found = len(ctx.violations) > nviol0
+    seen = mon.report(ctx, box['shared'])
+    report_shared(ctx, box['shared'], found_concrete=found, seen_changing=seen)
+    if failure is not None:
+        raise failure
+
+
+def run_dynamic(ctx, mon):
     r = ctx.rng
     cases = []
     # (a) interleavings of two queries of different kinds
@@ -211,13 +389,14 @@ def run(ctx):
     exp = [{'results': c['_solo']} for c in cases]
     send = [{k: v for k, v in c.items() if k != '_solo'} for c in cases]
     got = lib.run_impl_py('c16', send, timeout=3000)
+    mon.feed(send, got)
 
     ctx.compare(send, exp, got, THEOREM, rel=rel_results,
                 describe=lambda c, e, g: '%s of %s (schedule %s): solo model results %s, implementation %s' % (
                     c['mode'], [q['q'] for q in c['queries']], c.get('schedule'), json.dumps(e)[:300], json.dumps(g)[:400]),
                 corrupt=lambda e: {'results': e['results'] + [None]})
     ctx.cross_check_vm(300, args, mres, n=30)
-    csv_sequences(ctx)
+    csv_sequences(ctx, mon)
     for c in cases:
         ctx.count()
         ctx.stat(c['mode'])
@@ -226,7 +405,7 @@ def run(ctx):
             ctx.stat('kind_' + q['kind'])
     ex = [c for c in send if c['mode'] == 'inter'][0]
     ctx.sample({'mode': 'inter', 'queries': [q['q'] for q in ex['queries']], 'schedule': ex['schedule'], 'implementation': got[send.index(ex)]})
-    ctx.rule = ('(a) %d pairs of queries of different kinds {select, aggregate, distinct+order, join, update, like, unnest, runtime error, parse error} over tables of <= 3 records, run in two threads under a cooperative '
+    ctx.rule = ('shared-state obligations regenerated from the source and re-proved (gen_shared_*; see notes) + a snapshot of every shared cell around every case; (a) %d pairs of queries of different kinds {select, aggregate, distinct+order, join, update, like, unnest, runtime error, parse error} over tables of <= 3 records, run in two threads under a cooperative '
                 'scheduler with a scheduling point at every get_record / write / finish: random and extreme schedules (thorough: all interleavings when <= 10 steps); (b) %d histories of 2-6 queries in one '
                 'interpreter; every result (trace, error, pulls) compared with the solo engine-model result; non-trivial = distinct (queries, schedule)') % (npairs, nseq)
     # the history clause for rbql-js (sequential only: its query context is a module global, O3 / O23)
@@ -236,6 +415,20 @@ def run(ctx):
 def replay(ctx, case):
     if case.get('part') == 'c16js':
         return importlib.import_module('props.c16js').replay(ctx, case)
+    if 'shared_obligation' in case:
+        shared = shared_step(ctx, keep=True)
+        ctx.count()
+        report_shared(ctx, shared, found_concrete=False)
+        return
+    if 'shared_cell_changed' in case:
+        shared = shared_step(ctx)
+        mon = SharedMonitor()
+        c = {k: v for k, v in case.items() if k not in ('shared_cell_changed', 'broken_obligations')}
+        got = lib.run_impl_py('c16', [c], shards=1, extra_env={'VERIF_SCRATCH': lib.BUILD})
+        mon.feed([c], got)
+        ctx.count()
+        mon.report(ctx, shared)
+        return
     if case.get('mode') == 'csvseq':
         got = lib.run_impl_py('c16', [case], shards=1, extra_env={'VERIF_SCRATCH': lib.BUILD})
         ctx.count()
